@@ -43,19 +43,17 @@ type AEv struct {
 	V     int    `json:"v"`
 	// Go-only
 	MT    string `json:"mt,omitempty"`    // media type
-	MTOK  *bool  `json:"mtok,omitempty"`  // media type is valid UTF-8 (nil = true)
+	MTOK  bool   `json:"mtok"`            // media type is valid UTF-8
 	CT    uint64 `json:"ct,omitempty"`    // custom type code
 	Multi bool   `json:"multi,omitempty"` // multiline comment
 }
 
-func (e AEv) mtOK() bool { return e.MTOK == nil || *e.MTOK }
+func (e AEv) mtOK() bool { return e.MTOK }
 
 func recMT(e *AEv, mt string) {
 	ok := utf8.ValidString(mt)
 	e.MT = strings.ToValidUTF8(mt, "?")
-	if !ok {
-		e.MTOK = &ok
-	}
+	e.MTOK = ok
 }
 
 func concMT(e AEv) string {
@@ -65,7 +63,7 @@ func concMT(e AEv) string {
 	return e.MT + "\xff"
 }
 
-func newEv(m string) AEv { return AEv{M: m, IDOK: true, IDLen: 1, Bytes: []int{}} }
+func newEv(m string) AEv { return AEv{M: m, IDOK: true, IDLen: 1, Bytes: []int{}, MTOK: true} }
 
 func (e AEv) String() string {
 	var sb strings.Builder
